@@ -743,18 +743,9 @@ where
     where
         Q: Hash + Equivalent<E::Key> + ?Sized,
     {
-        let hash = self.inner.hash_builder.hash_one(key);
-
-        match E::acquire() {
-            Op::Noop => self.inner.shards[self.shard(hash)].read().get_noop(hash, key),
-            Op::Immutable(_) => self.inner.shards[self.shard(hash)]
-                .read()
-                .with(|shard| shard.get_immutable(hash, key)),
-            Op::Mutable(_) => self.inner.shards[self.shard(hash)]
-                .write()
-                .with(|mut shard| shard.get_mutable(hash, key)),
-        }
-        .is_some()
+        // Access the entry through a handle and drop it right away, so that the reference taken by the lookup is
+        // given back and the eviction algorithm gets its `release` for the `acquire`.
+        self.get(key).is_some()
     }
 
     #[cfg_attr(feature = "tracing", fastrace::trace(name = "foyer::memory::raw::clear"))]
